@@ -18,15 +18,17 @@ import (
 )
 
 type ModInfo struct {
-	Mutable map[string]string          // field array -> first witness of a non-constructor write
-	Writers map[string]map[string]bool // array -> functions with a direct non-fresh store to it
-	Fields  map[string]bool            // all field arrays seen
-	Direct  map[*ssa.Function]map[string]bool
-	Trans   map[*ssa.Function]map[string]bool
-	Callees map[*ssa.Function]map[*ssa.Function]bool
-	addrTaken []*ssa.Function
+	Mutable       map[string]string          // field array -> first witness of a non-constructor write
+	Writers       map[string]map[string]bool // array -> functions with a direct non-fresh store to it
+	Fields        map[string]bool            // all field arrays seen
+	Direct        map[*ssa.Function]map[string]bool
+	Trans         map[*ssa.Function]map[string]bool
+	Callees       map[*ssa.Function]map[*ssa.Function]bool
+	addrTaken     []*ssa.Function
 	writesThrough map[*ssa.Function]map[string]bool
-	w       *World
+	sites         map[*ssa.Function][]rootedSite
+	calls         map[*ssa.Function][]rootedCall
+	w             *World
 }
 
 func sortOfType(t types.Type) string {
@@ -565,26 +567,106 @@ func rootsOf(v ssa.Value) map[string]bool {
 	return out
 }
 
+// pathGuarded: the access path of v passes through a field that is declared guarded_by a lock
+// (the write is then the business of the lock:guard obligations, not of ownership).
+func (mi *ModInfo) pathGuarded(v ssa.Value, depth int) bool {
+	if v == nil || depth > 12 {
+		return false
+	}
+	switch x := v.(type) {
+	case *ssa.FieldAddr:
+		pt := x.X.Type().Underlying().(*types.Pointer).Elem()
+		if n, ok := pt.(*types.Named); ok && n.Obj().Pkg() != nil {
+			if td := mi.w.CS.Types[n.Obj().Pkg().Name()+"."+n.Obj().Name()]; td != nil {
+				if _, g := td.GuardedBy[pt.Underlying().(*types.Struct).Field(x.Field).Name()]; g {
+					return true
+				}
+			}
+		}
+		return mi.pathGuarded(x.X, depth+1)
+	case *ssa.UnOp:
+		return mi.pathGuarded(x.X, depth+1)
+	case *ssa.IndexAddr:
+		return mi.pathGuarded(x.X, depth+1)
+	case *ssa.Lookup:
+		return mi.pathGuarded(x.X, depth+1)
+	case *ssa.Slice:
+		return mi.pathGuarded(x.X, depth+1)
+	case *ssa.Extract:
+		return mi.pathGuarded(x.Tuple, depth+1)
+	case *ssa.TypeAssert:
+		return mi.pathGuarded(x.X, depth+1)
+	}
+	return false
+}
+
+type rootedSite struct {
+	ins    ssa.Instruction
+	roots  map[string]bool
+	how    string
+	atomic bool
+}
+
+type rootedCall struct {
+	ins    ssa.CallInstruction
+	callee *ssa.Function
+	param  string
+	roots  map[string]bool
+}
+
+// RootedWrite: a write (direct or through a callee) into memory reachable from a parameter,
+// a free variable or a package-level variable of function Fn.
+type RootedWrite struct {
+	Instr ssa.Instruction
+	Root  string
+	How   string
+}
+
+func (mi *ModInfo) rootedWrites(f *ssa.Function) []RootedWrite {
+	if mi.sites == nil {
+		mi.computeGlobalWrites()
+	}
+	var res []RootedWrite
+	seen := map[string]bool{}
+	add := func(ins ssa.Instruction, roots map[string]bool, how string) {
+		for r := range roots {
+			k := shortPos(mi.w.Fset, ins.Pos()) + r + how
+			if !seen[k] {
+				seen[k] = true
+				res = append(res, RootedWrite{ins, r, how})
+			}
+		}
+	}
+	for _, s := range mi.sites[f] {
+		if !s.atomic {
+			add(s.ins, s.roots, s.how)
+		}
+	}
+	for _, c := range mi.calls[f] {
+		if mi.writesThrough[c.callee][c.param] {
+			add(c.ins, c.roots, "call:"+funcKey(c.callee)+" writes through its "+c.param)
+		}
+	}
+	sort.Slice(res, func(i, j int) bool {
+		if res[i].Instr.Pos() != res[j].Instr.Pos() {
+			return res[i].Instr.Pos() < res[j].Instr.Pos()
+		}
+		return res[i].Root+res[i].How < res[j].Root+res[j].How
+	})
+	return res
+}
+
 // computeGlobalWrites finds every write whose target is (reachable from) a package-level variable,
 // following values into callees through parameters and closure bindings.
 func (mi *ModInfo) computeGlobalWrites() map[*ssa.Function][]GlobalWrite {
 	w := mi.w
 	// writesThrough[f]["p:i"] = true if f may write memory reachable from that parameter / free variable
 	writesThrough := map[*ssa.Function]map[string]bool{}
-	type site struct {
-		ins   ssa.Instruction
-		roots map[string]bool
-		how   string
-		atomic bool
-	}
+	type site = rootedSite
 	sites := map[*ssa.Function][]site{}
-	type callArg struct {
-		ins    ssa.CallInstruction
-		callee *ssa.Function
-		param  string
-		roots  map[string]bool
-	}
+	type callArg = rootedCall
 	calls := map[*ssa.Function][]callArg{}
+	mi.sites, mi.calls = sites, calls
 	for _, f := range w.FuncList {
 		writesThrough[f] = map[string]bool{}
 		for _, b := range f.Blocks {
@@ -594,8 +676,14 @@ func (mi *ModInfo) computeGlobalWrites() map[*ssa.Function][]GlobalWrite {
 					if _, isAlloc := x.Addr.(*ssa.Alloc); isAlloc {
 						continue
 					}
+					if mi.pathGuarded(x.Addr, 0) {
+						continue
+					}
 					sites[f] = append(sites[f], site{ins, rootsOf(x.Addr), "store", false})
 				case *ssa.MapUpdate:
+					if mi.pathGuarded(x.Map, 0) {
+						continue
+					}
 					sites[f] = append(sites[f], site{ins, rootsOf(x.Map), "mapupdate", false})
 				}
 				ci, ok := ins.(ssa.CallInstruction)
@@ -606,10 +694,14 @@ func (mi *ModInfo) computeGlobalWrites() map[*ssa.Function][]GlobalWrite {
 				if bi, ok := cc.Value.(*ssa.Builtin); ok {
 					switch bi.Name() {
 					case "delete":
-						sites[f] = append(sites[f], site{ins, rootsOf(cc.Args[0]), "delete", false})
+						if !mi.pathGuarded(cc.Args[0], 0) {
+							sites[f] = append(sites[f], site{ins, rootsOf(cc.Args[0]), "delete", false})
+						}
 					case "append", "copy":
 						// in-place element writes into an existing backing array
-						sites[f] = append(sites[f], site{ins, rootsOf(cc.Args[0]), bi.Name(), false})
+						if !mi.pathGuarded(cc.Args[0], 0) {
+							sites[f] = append(sites[f], site{ins, rootsOf(cc.Args[0]), bi.Name(), false})
+						}
 					}
 					continue
 				}
